@@ -94,28 +94,35 @@ Proof. exact validateScope_fixed_perm. Qed.
 Print Assumptions C08_validateScope_fixed.
 
 (* ------------------------------------------------------------------ *)
-(* evaluator.evalMapLiteral — order dependent                           *)
-Theorem C08_evalMapLiteral_partial : forall S Nd Vl E (ev : Nd -> S -> S * (E + Vl)) (pv : Nd -> Vl) pi1 pi2 s,
-  Permutation pi1 pi2 -> NoDup (map fst pi1) -> Forall (pure_entry ev pv) pi1 ->
-  exists m1 m2, evalMapLiteral ev pi1 s = (s, inr m1) /\ evalMapLiteral ev pi2 s = (s, inr m2) /\ forall k, m1 k = m2 k.
-Proof. exact @evalMapLiteral_pure_perm. Qed.
-Print Assumptions C08_evalMapLiteral_partial.
+(* evaluator.evalMapLiteral — since /repo 7307e12 the loop ranges over the
+   slice m.Order, it is no map-range site any more (Gen/MapSites.v does not
+   list it) and the model in force (Perm.evalMapLiteral_cur) has no iteration
+   order left.  What is proved about it: *)
 
-Theorem C08_evalMapLiteral_refuted : exists pi1 pi2, Permutation pi1 pi2 /\
-  fst (evalMapLiteral mev pi1 []) <> fst (evalMapLiteral mev pi2 []).
-Proof.
-  exists [(s_ "a", MPrint 1); (s_ "b", MPrint 2)], [(s_ "b", MPrint 2); (s_ "a", MPrint 1)].
-  split; [apply perm_swap | vm_compute; discriminate].
-Qed.
-Print Assumptions C08_evalMapLiteral_refuted.
+(* effects happen in source order *)
+Theorem C08_evalMapLiteral_source_order : forall order s,
+  (forall kn, In kn order -> snd kn <> MPanic) ->
+  fst (evalMapLiteral_fixed mev order s) = s ++ flat_map mnode_effects order.
+Proof. intros order s H. exact (evalMapLiteral_loop_source_order order s fempty H). Qed.
+Print Assumptions C08_evalMapLiteral_source_order.
 
-(* proposed fix (iterate m.Order): no iteration-order argument is left, and on
-   every literal whose values are pure it computes what the current code computes *)
+(* and on every literal whose values are pure it computes what the loop over
+   m.Pairs computed for whatever iteration order (the fix changed nothing there) *)
 Theorem C08_evalMapLiteral_fixed : forall S Nd Vl E (ev : Nd -> S -> S * (E + Vl)) (pv : Nd -> Vl) order pi s,
   Permutation order pi -> NoDup (map fst order) -> Forall (pure_entry ev pv) order ->
   exists m1 m2, evalMapLiteral_fixed ev order s = (s, inr m1) /\ evalMapLiteral ev pi s = (s, inr m2) /\ forall k, m1 k = m2 k.
 Proof. exact @evalMapLiteral_pure_perm. Qed.
 Print Assumptions C08_evalMapLiteral_fixed.
+
+(* the loop over m.Pairs that was there before 7307e12 did depend on the order
+   (kept as the regression witness: harness corpus "corpus-evalMapLiteral") *)
+Theorem C08_evalMapLiteral_before_fix_refuted : exists pi1 pi2, Permutation pi1 pi2 /\
+  fst (evalMapLiteral mev pi1 []) <> fst (evalMapLiteral mev pi2 []).
+Proof.
+  exists [(s_ "a", MPrint 1); (s_ "b", MPrint 2)], [(s_ "b", MPrint 2); (s_ "a", MPrint 1)].
+  split; [apply perm_swap | vm_compute; discriminate].
+Qed.
+Print Assumptions C08_evalMapLiteral_before_fix_refuted.
 
 (* ------------------------------------------------------------------ *)
 (* evaluator.parseFontProps — order dependent                           *)
@@ -226,8 +233,6 @@ Definition registry : list cert := [
      c_proof := conj C08_newEvaluator_globals C08_builtin_global_names_distinct |};
   {| c_id := "pkg/evaluator.Evaluator.evalProgram#1"; c_cls := OrderLeaksIntoNameListOnly;
      c_proof := conj C08_name_lists_refuted C08_name_lists_partial |};
-  {| c_id := "pkg/evaluator.Evaluator.evalMapLiteral#1"; c_cls := OrderDependent;
-     c_proof := conj C08_evalMapLiteral_refuted (conj C08_evalMapLiteral_partial C08_evalMapLiteral_fixed) |};
   {| c_id := "pkg/evaluator.mapVal.Equals#1"; c_cls := OrderDependent;
      c_proof := conj C08_mapVal_Equals_refuted C08_mapVal_Equals_partial |}
 ].
@@ -265,7 +270,7 @@ Print Assumptions C08_registry_not_stale.
 Theorem C08_order_dependent_sites :
   map c_id (filter (fun c => match c_cls c with OrderDependent => true | _ => false end) registry) =
   ["pkg/parser.parser.parseMapLiteral#1"; "pkg/parser.parser.validateScope#1"; "pkg/evaluator.parseFontProps#1";
-   "pkg/evaluator.Evaluator.evalMapLiteral#1"; "pkg/evaluator.mapVal.Equals#1"].
+   "pkg/evaluator.mapVal.Equals#1"].
 Proof. reflexivity. Qed.
 Print Assumptions C08_order_dependent_sites.
 
